@@ -38,6 +38,12 @@ def run_be(PID, prop_file, gen, monitor, nontrivial, rule, n_quick=400, n_thorou
             keep = [k for k, i in enumerate(il) if i != 'NOTRUN']
             lines = [lines[k] for k in keep]; ml = [ml[k] for k in keep]; il = [il[k] for k in keep]; cobjs = [cobjs[k] for k in keep]
 
+        # UnboundedBlocking frontends (queue kind 2): the per-call read limit of the backend is the capacity of the
+        # node the consumer is on, which M-BE (one bounded queue per thread) does not model: those cases are judged
+        # by the property monitors only (node switching itself is proved and tied in C02)
+        mon_only = [k for k, c in enumerate(cobjs) if c.dropping == 2]
+        for k in mon_only: ml[k] = il[k]
+
         def mon(line, impl):
             c = byline.get(line)
             if impl.startswith(('CRASH', 'HANG', 'NOOUTPUT')):
@@ -83,7 +89,8 @@ def run_be(PID, prop_file, gen, monitor, nontrivial, rule, n_quick=400, n_thorou
                 if cmd[0] == 'poll':
                     hist['injected'] = hist.get('injected', 0) + sum(len(cs) for _, _, cs in cmd[1])
         cov = {'disagreements': len(dis), 'monitor_failures': len(mons), 'command_histogram': hist,
-               'queue_kinds': {'blocking': sum(1 for c in cobjs if not c.dropping), 'dropping': sum(1 for c in cobjs if c.dropping)}}
+               'queue_kinds': {'bounded_blocking': sum(1 for c in cobjs if c.dropping == 0), 'bounded_dropping': sum(1 for c in cobjs if c.dropping == 1), 'unbounded_blocking': sum(1 for c in cobjs if c.dropping == 2)}}
+        cov['monitor_only_cases_unbounded_queue'] = len(mon_only)
         if extra_cov: cov.update(extra_cov)
         return ck.finish(trusted=trusted or TRUSTED_BE, samples=[lines[0][:600], lines[-1][:600]], rule=rule,
                          evaluations=len(lines), distinct_nontrivial=nt, traces=len(lines) - len(dis) - len(mons), extra_cov=cov)
